@@ -14,6 +14,7 @@ import (
 	"strings"
 	"sync"
 	"sync/atomic"
+	"syscall"
 	"testing"
 	"time"
 
@@ -147,7 +148,7 @@ func TestVerifC19Config(t *testing.T) {
 
 func TestVerifC19Behaviour(t *testing.T) {
 	L := ev.Begin("C19", "c19-behaviour", "exploration",
-		"upstream {answers at once, holds its response headers until released (plain request, event-stream request, proxy with a flush interval, an https upstream silent in the TLS handshake, a request offering an h2c upgrade), answers at once and streams its body for 1.5s} x proxy.responseheadertimeout {unset, 200ms, 5s} through transport.SetConfig + main.newHTTPProxy + ServeHTTP: a held upstream with the 200ms limit must produce 504 while the upstream is still holding (causal: the harness releases the upstream only after the proxy answered; a 20s guard turns 'never answered' into the violation); an upstream answering at once yields 200 under every setting. non-trivial = every case")
+		"upstream {answers at once, holds its response headers until released (plain request, event-stream request, proxy with a flush interval, an https upstream silent in the TLS handshake, a request offering an h2c upgrade), answers at once and streams its body for 1.5s} x proxy.responseheadertimeout {unset, 200ms, 5s} through transport.SetConfig + main.newHTTPProxy + ServeHTTP: a held upstream with the 200ms limit must produce 504 while the upstream is still holding (causal: the harness releases the upstream only after the proxy answered; a 20s guard turns 'never answered' into the violation); an upstream answering at once yields 200 under every setting; plus an upstream address that swallows connection attempts (listening socket with a full backlog of 0) with proxy.dialtimeout=300ms x request {plain, websocket, websocket to an https target}: the client is answered or released within 10s. non-trivial = every case")
 	var hold atomic.Value
 	var slow atomic.Value // if set: the upstream answers at once and then streams its body for this long
 	slow.Store(time.Duration(0))
@@ -274,6 +275,87 @@ func TestVerifC19Behaviour(t *testing.T) {
 			case mode == "prompt" && rec.Body.String() != "ok":
 				L.Violation("prompt-upstream-not-served", d)
 			}
+		}
+	}
+	// an upstream address that swallows connection attempts (a listening socket with a backlog of 0 whose one
+	// place is taken: further SYNs go unanswered, as with a black-holed host): establishing the connection is
+	// bounded by proxy.dialtimeout for every kind of request the HTTP proxy forwards
+	{
+		fd, err := syscall.Socket(syscall.AF_INET, syscall.SOCK_STREAM, 0)
+		if err != nil {
+			panic("VERIF-INFRA: " + err.Error())
+		}
+		defer syscall.Close(fd)
+		if err := syscall.Bind(fd, &syscall.SockaddrInet4{Addr: [4]byte{127, 0, 0, 1}}); err != nil {
+			panic("VERIF-INFRA: " + err.Error())
+		}
+		if err := syscall.Listen(fd, 0); err != nil {
+			panic("VERIF-INFRA: " + err.Error())
+		}
+		sa, _ := syscall.Getsockname(fd)
+		hole := fmt.Sprintf("127.0.0.1:%d", sa.(*syscall.SockaddrInet4).Port)
+		var fill []net.Conn
+		swallows := false
+		for i := 0; i < 8 && !swallows; i++ {
+			c, err := net.DialTimeout("tcp", hole, 500*time.Millisecond)
+			if err != nil {
+				swallows = true
+			} else {
+				fill = append(fill, c)
+			}
+		}
+		defer func() {
+			for _, c := range fill {
+				c.Close()
+			}
+		}()
+		if !swallows {
+			L.Cap("a listening socket with a full backlog still answers connection attempts here: black-holed upstream scenarios skipped")
+		} else {
+			cfg := &config.Config{}
+			cfg.Proxy.DialTimeout = 300 * time.Millisecond
+			cfg.Proxy.Strategy, cfg.Proxy.Matcher, cfg.GlobCacheSize = "rr", "prefix", 10
+			transport.SetConfig(cfg)
+			srv := httptest.NewServer(newHTTPProxy(cfg, c19Stats()))
+			for _, kind := range []string{"plain", "websocket", "websocket/https-upstream"} {
+				dst := "http://" + hole + "/"
+				if kind == "websocket/https-upstream" {
+					dst = "https://" + hole + "/"
+				}
+				tbl, err := route.NewTable(bytes.NewBufferString("route add svc / " + dst + "\n"))
+				if err != nil {
+					panic(err)
+				}
+				route.SetTable(tbl)
+				raw := "GET /x HTTP/1.1\r\nHost: foo.com\r\nConnection: close\r\n\r\n"
+				if kind != "plain" {
+					raw = "GET /x HTTP/1.1\r\nHost: foo.com\r\nUpgrade: websocket\r\nConnection: Upgrade\r\nSec-WebSocket-Key: dGhlIHNhbXBsZSBub25jZQ==\r\nSec-WebSocket-Version: 13\r\n\r\n"
+				}
+				c, err := net.Dial("tcp", srv.Listener.Addr().String())
+				if err != nil {
+					panic("VERIF-INFRA: " + err.Error())
+				}
+				start := time.Now()
+				io.WriteString(c, raw)
+				c.SetReadDeadline(time.Now().Add(10 * time.Second))
+				b, rerr := io.ReadAll(c)
+				c.Close()
+				L.Case()
+				L.NontrivialKey("black-hole/" + kind)
+				first := strings.SplitN(string(b), "\r\n", 2)[0]
+				d := map[string]interface{}{"dialtimeout": "300ms", "upstream": "swallows connection attempts", "request": kind, "answer": first, "elapsed": time.Since(start).String()}
+				held := false
+				if ne, ok := rerr.(net.Error); ok && ne.Timeout() {
+					held = true
+				}
+				d["client_released_within_10s"] = !held
+				L.Outcome(fmt.Sprint(kind, " released=", !held))
+				L.Sample(d)
+				if held {
+					L.Violation("unreachable-upstream-holds-the-client-despite-dial-timeout/"+kind, d)
+				}
+			}
+			srv.Close()
 		}
 	}
 	// idle connections per host: with proxy.maxconn=500 two bursts of 60 concurrent requests to each of two
